@@ -733,10 +733,16 @@ func boundObligations(r *Run, rule string, fnRefs ...string) {
 		if fn == nil {
 			continue
 		}
-		sites := r.P.Facts(fn).BoundSites()
-		r.Units["bounds obligations"] += len(sites)
-		for _, s := range sites {
-			r.Check(rule, ref+": "+trunc(s.Expr, 110), r.P.Pos(s.In.Pos()), s.OK, s.Why)
+		for _, f := range append([]*ssa.Function{fn}, r.P.singleUseCallees(fn, 2)...) {
+			sites := r.P.Facts(f).BoundSites()
+			r.Units["bounds obligations"] += len(sites)
+			name := ref
+			if f != fn {
+				name = ref + " (helper " + FnName(f) + ")"
+			}
+			for _, s := range sites {
+				r.Check(rule, name+": "+trunc(s.Expr, 110), r.P.Pos(s.In.Pos()), s.OK, s.Why)
+			}
 		}
 	}
 }
